@@ -148,6 +148,17 @@ def generate(g, tier):
             body = '\n    STRING b' if nm in ('IF', 'ELIF', 'ELSE', 'WHILE', 'REPEAT', 'FOR', 'FUNC', 'FUNCTION', 'IGNORE') and g.chance(0.5) else ''
             cases.append(dict(op='compile', src=dict(text=f'${nm} {o}{body}'), meta=dict(family='dollar-odd-string')))
             cases.append(dict(op='compile', src=dict(text=f'VAR s {o}\n${nm} s{body}'), meta=dict(family='dollar-odd-string')))
+    # the nested-list input form with EMPTY nested blocks at any depth, and blocks that follow one another
+    for tree in ([['STRING a', [], 'STRING b']], [[[], 'STRING a']], [['IF TRUE', ['STRING x', []], 'STRING b']], [['REPEAT 2', [[], 'STRING y', []]]],
+                 [['STRING a', [[]], 'STRING b']], [[]], [['FUNC f', [], 'RUN f']], [['STRING a', [], [], 'STRING b']], [['IF TRUE', [[], []], 'ELSE', []]]):
+        cases.append(dict(op='compile', src=dict(tree=tree[0]), meta=dict(family='tree-empty-blocks')))
+    # the same unknown line reached again and again along DIFFERENT call paths and at different depths (warnings are de-duplicated by
+    # comparing traces of different lengths)
+    for body in ('FOO 1', '$FOO 1+1', 'FOO\n        a\n        b'):
+        t = f'FUNC f\n    {body}\nRUN f\nREPEAT 2\n    RUN f\nIF TRUE\n    REPEAT 1\n        RUN f\nFUNC g\n    RUN f\nRUN g\nRUN f'
+        cases.append(dict(op='compile', src=dict(text=t), meta=dict(family='unknown-at-several-depths')))
+        cases.append(dict(op='compile_file', file='p/main.txt', files={'p/main.txt': 'START lib\nRUN f\nIF TRUE\n    START lib\n    RUN f', 'p/lib.txt': f'FUNC f\n    {body}\nRUN f\n{body.splitlines()[0]}'},
+                          meta=dict(family='unknown-at-several-depths')))
     # known-finding probes (each costs a timeout or a deep recursion): a few per run
     cases.append(dict(op='compile', src=dict(text='$STRING 10^5000'), meta=dict(family='probe', probe='huge-int-str', nocorr=True)))
     cases.append(dict(op='compile', src=dict(text='$STRING ²'), meta=dict(family='probe', nocorr=True)))
